@@ -89,6 +89,11 @@ TABLE = {
             'a late then() runs the functor only behind isFinished() && hasResult(), with the stored value, and resets it on the same path; the registered wrapper checks the context and clears itself on every path; the shared record frees values; '
             'only the promise/task templates touch it. Template code is analysed through all its instantiations, so a per-specialisation slip (e.g. only the void overload) is seen.',
             'The full interleaving semantics (re-entrancy from inside a continuation, copies dropped in every order, leak-freedom) need model checking or sanitizers: not decided.', 'DESIGN.md §2 C13'),
+    'C14': ('table extraction and comparison of the encoder and decoder (attribute types, fixed lengths, padding), abstract evaluation of the integrity/fingerprint arms, flag-sensitive exploration of the keyed decode, wire-length taint rule, recomputation of the CRC table from its polynomial',
+            'Static: the 25 attribute types written by encode() each have a decoder arm with the same fixed length, variable-length values are padded; a wrong HMAC (under a key) or CRC makes decode() return false; encode and decode patch the length with the same +24/+8 and use the same fingerprint mask; '
+            'after MESSAGE-INTEGRITY only FINGERPRINT is processed; under a non-empty key no path returns true without having passed the HMAC comparison (found and fixed); wire lengths are bounded by type or a dominating check and the loop advances; '
+            'crctable equals the table generated from 0xEDB88320; the HMAC helper hashes long keys (found and fixed).',
+            'That HMAC/CRC outputs equal the RFC values for all inputs, decode∘encode = id at value level and "no crash for arbitrary bytes" beyond the length rule are numerical/runtime claims: not decided.', 'DESIGN.md §2 C14'),
 }
 
 NOT_APPLICABLE_REASON = 'check not built yet in this session (see DESIGN.md); listed here until qxverif/rules/<id>.py exists'
